@@ -807,7 +807,16 @@ fn run_op(a: &[&str]) -> R {
                 Ok(n) => {
                     let as_ref: &str = n.as_ref();
                     let disp = format!("{}", n);
-                    if disp != as_ref {
+                    // formatting parameters (width, fill, alignment, precision) must never make printing fail, and what is printed
+                    // still shows the stored text (whether a width pads is left open)
+                    let l = as_ref.len();
+                    let mut shown_ok = true;
+                    for w in [0usize, 1, l.saturating_sub(1), l, l + 1, 40] {
+                        for t in [format!("{:w$}", n, w = w), format!("{:>w$}", n, w = w), format!("{:*^w$}", n, w = w), format!("{:<w$.p$}", n, w = w, p = 64)] {
+                            if !t.contains(as_ref) || t.len() > 200 { shown_ok = false; }
+                        }
+                    }
+                    if disp != as_ref || !shown_ok {
                         "DISAGREE display".to_string()
                     } else {
                         format!("ok {}", hex(as_ref.as_bytes()))
@@ -820,7 +829,13 @@ fn run_op(a: &[&str]) -> R {
                 }
                 Err(e @ wow_srp::error::NormalizedStringError::CharacterNotAllowed(c)) => {
                     shown(e);
-                    shown(&wow_srp::error::SrpError::from(wow_srp::error::NormalizedStringError::CharacterNotAllowed(*c)));
+                    let conv = wow_srp::error::SrpError::from(wow_srp::error::NormalizedStringError::CharacterNotAllowed(*c));
+                    shown(&conv);
+                    // the error keeps its character when it travels through `?` into SrpError
+                    match conv {
+                        wow_srp::error::SrpError::NormalizedStringError(wow_srp::error::NormalizedStringError::CharacterNotAllowed(c2)) if c2 == *c => {}
+                        _ => return "DISAGREE error conversion changes the reported character".to_string(),
+                    }
                     format!("err char {}", *c as u32)
                 }
                 #[allow(unreachable_patterns)]
